@@ -26,3 +26,17 @@ func init() {
 		verifScenario{"C02/interp.dec/post:complete:admitted-kinds", prints("package main\nfunc main() { var p uintptr = 7; p--; println(p); println(\"end\") }", "6\nend\n")},
 	)
 }
+
+func init() {
+	rejected := func(src string) func() (bool, string) {
+		return func() (bool, string) {
+			out, err := verifOutput(src)
+			return err == nil, fmt.Sprintf("accepted: output %q, error %v; the Go type checker rejects it (constant overflows int8)", out, err)
+		}
+	}
+	verifProtocolScenarios = append(verifProtocolScenarios,
+		verifScenario{"C03/interp.addConst/post:typed-overflow-rejected", rejected("package main\nconst a int8 = 100\nconst b = a + a\nfunc main() { println(b) }")},
+		verifScenario{"C03/interp.subConst/post:typed-overflow-rejected", rejected("package main\nconst a int8 = -100\nconst c int8 = 100\nconst b = a - c\nfunc main() { println(b) }")},
+		verifScenario{"C03/interp.mulConst/post:typed-overflow-rejected", rejected("package main\nconst a int8 = 100\nconst b = a * a\nfunc main() { println(b) }")},
+	)
+}
